@@ -10,8 +10,9 @@
     _transform_space, the new_fmt table of Miller.cross, Miller.space).
 
    Faithful to the code as it is: exceptions are values ([res]), the 1e-8
-   determinant guard of diffpy is modelled, Miller.cross in "xyz" format is a
-   KeyError.  Modelled, not verified: numpy.round(.., 12) of the aligned matrix
+   determinant guard of diffpy is modelled (setLatBase and reciprocal()); the
+   format table of Miller.cross and the matrices of _transform_space are whatever
+   the generated file says (a missing key is a KeyError).  Modelled, not verified: numpy.round(.., 12) of the aligned matrix
    is the identity here; numpy.linalg.inv is the exact inverse. *)
 From Coq Require Import ZArith List Bool.
 From Verif Require Import Scalar C09Lin C09Miller.
@@ -50,7 +51,8 @@ Definition lat_metrics (A : mat3 T) : res (mat3 T) :=
 
 (* the lattice object after setLatBase(A); [l_rec_metrics] is
    lattice.reciprocal().metrics = Lattice(base=recbase.T).metrics, evaluated
-   when it is read *)
+   when it is read (diffpy's own reciprocal metric tensor; orix's
+   _transform_space uses recbase.T @ recbase instead and does not read it) *)
 Definition lattice_of_base (A : mat3 T) : res (lattice T) :=
   if base_ok A
   then Ok (mkLattice A (minv O A) (metrics_of_base A) (lat_metrics (mtr (minv O A))))
